@@ -1,7 +1,7 @@
 #!/venv/bin/python
 """Intake of a seeded change written by an independent sub-agent.
 
-usage: selftest/intake.py <PROP> <agent _out dir> [--no-suite] [--only k]
+usage: selftest/intake.py <PROP> <agent _out dir> [--no-suite] [--only k] [--prefix r2]
 
 For each mutant_k.diff in the directory: (1) the diff touches only cotengra/,
 (2) in a fresh scratch worktree of /repo HEAD the demo passes on the clean tree,
@@ -31,6 +31,9 @@ def sh(cmd, cwd=None, env=None, timeout=3600):
 def main():
     prop, outdir = sys.argv[1], sys.argv[2]
     no_suite = "--no-suite" in sys.argv
+    prefix = ""
+    if "--prefix" in sys.argv:
+        prefix = sys.argv[sys.argv.index("--prefix") + 1]
     only = None
     if "--only" in sys.argv:
         only = int(sys.argv[sys.argv.index("--only") + 1])
@@ -41,7 +44,7 @@ def main():
         diff = os.path.join(outdir, f"mutant_{k}.diff")
         demo = os.path.join(outdir, f"demo_{k}.py")
         notes = os.path.join(outdir, f"mutant_{k}.md")
-        mid = f"{prop}-m{k}"
+        mid = f"{prop}-{prefix}m{k}"
         files = re.findall(r"^\+\+\+ b/(\S+)", open(diff).read(), flags=re.M)
         if not files or any(not f.startswith("cotengra/") for f in files):
             print(f"{mid}: REJECT diff touches {files}")
@@ -58,7 +61,7 @@ def main():
             env["PYTHONWARNINGS"] = "ignore"
             src = open(demo).read()
             # the demo may hard-code the agent's worktree path
-            src2 = re.sub(r"/tmp/wt_C\d\d", wt, src)
+            src2 = re.sub(r"/tmp/w[t2]_C\d\d", wt, src)
             dpath = os.path.join(wt, "_demo.py")
             open(dpath, "w").write(src2)
             rc_clean, out_clean = sh([PY, dpath], cwd=wt, env=env, timeout=1200)
